@@ -311,7 +311,7 @@ func c19ParseEncodeAppend(c *kit.Ctx, m *c19Model, f *kit.Func) *frameEnc {
 		}
 		return e
 	}
-	cursor := int64(-1) // bytes before the data; -1: buffer not yet created
+	cursor := int64(-1)  // bytes before the data; -1: buffer not yet created
 	trailer := int64(-1) // bytes after the data; -1: data not yet appended
 	bad := func(format string, a ...any) {
 		fe.problems = append(fe.problems, fmt.Sprintf(format, a...))
@@ -696,7 +696,7 @@ func mbReturnsNil(f *kit.Func, st *kit.Std, e kit.Exit) string {
 }
 
 func c19R2(c *kit.Ctx, m *c19Model) {
-	r := c.Rule("R2", "framing: checksum, layout and transaction id agree between encode and decode; bounds", 33)
+	r := c.Rule("R2", "framing: checksum, layout and transaction id agree between encode and decode; bounds", 20)
 	var frameFuncs []*kit.Func
 	seen := map[*kit.Func]bool{}
 	add := func(f *kit.Func) {
